@@ -528,6 +528,20 @@ func (w *World) checkOctetForm(rr *RuleRun, iln *ssa.Function) {
 		}
 	}
 	if !mentionsOctets {
+		// net.IP.IsPrivate is a third way to write it - but a wider one: it also answers true for the
+		// IPv6 unique-local range fc00::/7, which the BEP 42 exemption table does not contain
+		usesIsPrivate := false
+		eachInstr(append([]*ssa.Function{iln}, allAnon(iln)...), func(_ *ssa.Function, ins ssa.Instruction) {
+			if c := callInstrCommon(ins); c != nil {
+				if o := calleeObj(c); o != nil && o.Name() == "IsPrivate" && o.Pkg() != nil && o.Pkg().Path() == "net" {
+					usesIsPrivate = true
+				}
+			}
+		})
+		if usesIsPrivate {
+			rr.Oblige(shortFuncName(iln), "the exemption is exactly the BEP 42 table (10/8, 172.16/12, 192.168/16, link-local, loopback)", w.P.Pos(iln.Pos()), false, "net.IP.IsPrivate also exempts fc00::/7: any ID verifies for such an address")
+			return
+		}
 		rr.Broken("isLocalNetwork: private-range exemption is expressed neither through the three CIDR nets nor through octet comparisons")
 		return
 	}
